@@ -1,7 +1,7 @@
 (** Property C18 — Indentation reflects block nesting (output stage: a column is realised as exactly that
     much whitespace; the indent pass computing the columns is a contract, see DESIGN.md). *)
 From Coq Require Import List ZArith Bool.
-From UV Require Import Model.Render Proofs.RenderProofs.
+From UV Require Import Model.Render Proofs.RenderProofs Proofs.RenderTrail Proofs.RenderIndent.
 Import ListNotations.
 Local Open Scope Z_scope.
 
@@ -15,3 +15,41 @@ Theorem C18_leading_width_is_column_minus_one : forall o prev c s,
   column s' = col c + Z.of_nat (length (text c)).
 Proof. exact first_chunk_on_line. Qed.
 Print Assumptions C18_leading_width_is_column_minus_one.
+
+(** Whole list.  For EVERY chunk list under a configuration that indents with blanks only: wherever a NEWLINE chunk is
+    followed by a code chunk c - after any prefix l1 that meets the hygiene contract, before any rest l2 - the written file
+    has, behind the line breaks of that NEWLINE chunk, exactly [col c - 1] blanks and then the text of c.  So two statements
+    the indent pass gives the same column start in the same column of the output, one given a column indent_columns larger
+    starts exactly that much further right, and nothing but [col c] decides where the line starts (in particular not the
+    original indentation, which the writer does not read here): what remains of the property is the contract K_indent on
+    the columns, evaluated on every dumped chunk list. *)
+Theorem C18_every_line_starts_in_its_column : forall o,
+  indent_with_tabs o = 0 -> (pp_indent_with_tabs o = 0 \/ pp_indent_with_tabs o = -1) ->
+  align_with_tabs o = false -> align_keep_tabs o = false -> force_tab_after_define o = false ->
+  forall last l1 nlc c l2,
+  last <> 13 -> Forall tr_ok l1 -> break_chunk nlc -> code_chunk c ->
+  exists rest,
+    render o last 0 (l1 ++ nlc :: c :: l2) =
+    render o last 0 l1 ++ repeat NL (Z.to_nat (nl_count nlc)) ++ repeat (Ch 32) (Z.to_nat (col c - 1)) ++ map Ch (text c) ++ rest.
+Proof. exact every_line_starts_in_its_column. Qed.
+Print Assumptions C18_every_line_starts_in_its_column.
+
+(** non-vacuity: "a" NEWLINE "  b" (column 3) NEWLINE - the hypotheses hold and the model writes a, line break, two blanks, b *)
+Definition c18_chunk (k : ckind) (t : list Z) (cl n : Z) : chunk :=
+  {| ck := k; text := t; col := cl; col_indent := cl; nl_count := n; nl_col := 0; orig_col := 9; orig_prev_sp := 0;
+     preproc := false; was_aligned := false; after_tab := false; lvl_hack := false; is_pp_define := false;
+     is_string := false; is_string_multi := false; is_pp_ignore := false; is_comment_kind := false; seg := [];
+     seg_column := 1; seg_spaces := 0; seg_last := 0; seg_did_nl := false |}.
+Definition c18_opts : ropts :=
+  {| indent_with_tabs := 0; pp_indent_with_tabs := -1; output_tab_size := 8; align_with_tabs := false; align_keep_tabs := false;
+     sp_before_nl_cont := 0; force_tab_after_define := false; cmt_convert_tab_to_spaces := false; in_preproc_at_output := false |}.
+Example C18_hypotheses_inhabited :
+  break_chunk (c18_chunk CKNewline [] 1 1) /\ code_chunk (c18_chunk CKOther [98] 3 0) /\
+  render c18_opts 0 0 [c18_chunk CKOther [97] 1 0; c18_chunk CKNewline [] 1 1; c18_chunk CKOther [98] 3 0; c18_chunk CKNewline [] 1 1]
+  = [Ch 97; NL; Ch 32; Ch 32; Ch 98; NL].
+Proof.
+  split; [|split].
+  - unfold break_chunk. cbn. repeat split; discriminate.
+  - unfold code_chunk, nonblank_end. cbn. repeat split; try discriminate. repeat constructor; discriminate.
+  - vm_compute. reflexivity.
+Qed.
